@@ -62,3 +62,47 @@ theorem hexDigit_lower (n : Nat) (h : n < 16) :
   rcases this with h | h | h | h | h | h | h | h | h | h | h | h | h | h | h | h <;> subst h <;> decide
 
 end Ysshra.Text
+
+namespace Ysshra.Text
+
+theorem splitOn_ne_nil (sep : UInt8) (s : Bytes) : splitOn sep s ≠ [] := by
+  induction s with
+  | nil => simp [splitOn]
+  | cons c r ih =>
+    simp only [splitOn]
+    split
+    · simp
+    · split <;> simp
+
+/-- splitting a separator-free field followed by the separator and more text -/
+theorem splitOn_field (sep : UInt8) (x rest : Bytes) (hx : sep ∉ x) :
+    splitOn sep (x ++ sep :: rest) = x :: splitOn sep rest := by
+  induction x with
+  | nil => simp [splitOn]
+  | cons c r ih =>
+    simp only [List.mem_cons, not_or] at hx
+    have hc : ¬ c = sep := fun e => hx.1 e.symm
+    simp only [List.cons_append, splitOn, hc, ↓reduceIte, ih hx.2]
+
+theorem splitOn_single (sep : UInt8) (x : Bytes) (hx : sep ∉ x) : splitOn sep x = [x] := by
+  induction x with
+  | nil => simp [splitOn]
+  | cons c r ih =>
+    simp only [List.mem_cons, not_or] at hx
+    have hc : ¬ c = sep := fun e => hx.1 e.symm
+    simp only [splitOn, hc, ↓reduceIte, ih hx.2]
+
+/-- `strings.Split(strings.Join(l, sep), sep) = l` for a non-empty list of separator-free fields -/
+theorem splitOn_joinWith (sep : UInt8) (l : List Bytes) (hne : l ≠ []) (h : ∀ x ∈ l, sep ∉ x) :
+    splitOn sep (joinWith sep l) = l := by
+  induction l with
+  | nil => exact absurd rfl hne
+  | cons x r ih =>
+    cases r with
+    | nil => simpa [joinWith] using splitOn_single sep x (h x (by simp))
+    | cons y r' =>
+      simp only [joinWith]
+      rw [splitOn_field sep x _ (h x (by simp))]
+      rw [ih (by simp) (fun z hz => h z (List.mem_cons_of_mem _ hz))]
+
+end Ysshra.Text
